@@ -47,3 +47,53 @@ Proof.
   cbv zeta. split; [|vm_compute; reflexivity].
   intros t [<-|[<-|[]]]; eexists; vm_compute; reflexivity.
 Qed.
+
+(* the plan is empty exactly when the two schemas are equivalent as the planner sees them
+   (schema_equiv, col_equiv, table_equiv: Proofs/DiffEqP.v) *)
+From VV.M1 Require Import DiffEqP.
+
+Theorem C07_diff_empty_iff : forall A B, diff_actions A B = Ok [] <-> schema_equiv A B.
+Proof. exact diff_empty_iff. Qed.
+Print Assumptions C07_diff_empty_iff.
+Check C07_diff_empty_iff : forall A B, diff_actions A B = Ok [] <->
+  (exists An Bn, normalize_all A = Ok An /\ normalize_all B = Ok Bn
+     /\ forall k, opt_rel
+          (fun a b =>
+             (forall c, opt_rel
+                (fun x y => requires_migration (c_type x) (c_type y) = false
+                            /\ needs_enum_rename (c_type x) (c_type y) = false
+                            /\ c_nullable x = c_nullable y
+                            /\ option_map default_to_sql (c_default x) = option_map default_to_sql (c_default y)
+                            /\ c_comment x = c_comment y)
+                (col_named c a) (col_named c b))
+             /\ incl (t_constraints a) (t_constraints b)
+             /\ incl (t_constraints b) (t_constraints a))
+          (table_named k An) (table_named k Bn)).
+
+(* list-level sufficient condition for schemas without duplicate table / column names *)
+Theorem C07_equivalent_models_no_migration : forall A B, schema_equiv_l A B -> diff_actions A B = Ok [].
+Proof. exact diff_equiv_l_empty. Qed.
+Print Assumptions C07_equivalent_models_no_migration.
+Check C07_equivalent_models_no_migration : forall A B,
+  (NoDup (map t_name A) /\ NoDup (map t_name B)
+   /\ (forall a, In a A -> exists b, In b B /\ t_name a = t_name b /\ tables_match a b)
+   /\ (forall b, In b B -> exists a, In a A /\ t_name a = t_name b /\ tables_match a b))
+  -> diff_actions A B = Ok [].
+
+(* non-vacuity: two syntactically different models (inline pk / unique vs. table-level constraints,
+   tables and columns listed in another order) are equivalent; a genuinely different one is not *)
+Example C07_equiv_nonvacuous :
+  let id_inline := mkCol "id" (TSimple Integer) false None None (Some (PKBool true)) None None None in
+  let id_plain := mkCol "id" (TSimple Integer) false None None None None None None in
+  let email_inline := mkCol "email" (TSimple Text) false None None None (Some (SBool true)) None None in
+  let email_plain := mkCol "email" (TSimple Text) false None None None None None None in
+  let A := [mkTable "user" None [id_inline; email_inline] []; mkTable "tag" None [id_plain] []] in
+  let B := [mkTable "tag" None [id_plain] [];
+            mkTable "user" None [email_plain; id_plain] [CPrimaryKey false ["id"]; CUnique None ["email"]]] in
+  let C := [mkTable "tag" None [id_plain] []; mkTable "user" None [email_plain; id_plain] []] in
+  A <> B /\ schema_equiv A B /\ ~ schema_equiv A C.
+Proof.
+  cbv zeta. split; [discriminate|split].
+  - apply diff_empty_iff. vm_compute. reflexivity.
+  - intro H. apply diff_empty_iff in H. vm_compute in H. discriminate.
+Qed.
